@@ -99,7 +99,9 @@ func (i *IterationDurations) Reset() {
 func (i *IterationDurations) drain() *IterationDurations {
 	drained := &IterationDurations{}
 	drained.sum.Store(i.sum.Swap(0))
+	verifhook.Yield("progress.drain.sum")
 	drained.count.Store(i.count.Swap(0))
+	verifhook.Yield("progress.drain.count")
 	drained.max.Store(i.max.Swap(0))
 	drained.min.Store(i.min.Swap(0))
 
